@@ -248,13 +248,15 @@ func execMinter(x *Exec, toks []string) string {
 		if toks[1] == "minters" {
 			msg := &mintertypes.MsgUpdateMintersParams{Authority: auth, StartTime: raw.StartTime, Minters: raw.Minters}
 			res, _ = x.deliver(msg.ValidateBasic, func(ctx sdk.Context) error {
-				_, err := ms.UpdateMintersParams(sdk.WrapSDKContext(ctx), msg)
+				r_, err := ms.UpdateMintersParams(sdk.WrapSDKContext(ctx), msg)
+				noteResp(r_, err)
 				return err
 			})
 		} else {
 			msg := &mintertypes.MsgUpdateParams{Authority: auth, MintDenom: raw.MintDenom, StartTime: raw.StartTime, Minters: raw.Minters}
 			res, _ = x.deliver(msg.ValidateBasic, func(ctx sdk.Context) error {
-				_, err := ms.UpdateParams(sdk.WrapSDKContext(ctx), msg)
+				r_, err := ms.UpdateParams(sdk.WrapSDKContext(ctx), msg)
+				noteResp(r_, err)
 				return err
 			})
 		}
